@@ -129,6 +129,19 @@ class StartStageHandler(
                     )
                     return
 
+                # A late or duplicate StartStage for a stage that has already left
+                # NOT_STARTED (e.g. a first-of / N-of-M join that fired and now
+                # receives its remaining branches) has nothing to wait for.
+                # Re-queuing it until the wait budget runs out would mark a
+                # healthy RUNNING stage TERMINAL.
+                if stage.status != WorkflowStatus.NOT_STARTED:
+                    logger.debug(
+                        "Ignoring StartStage for %s - already %s and not ready to (re)start",
+                        stage.name,
+                        stage.status,
+                    )
+                    return
+
                 # NOT_READY or UNDEFINED - need to wait or retry
                 # Check if any upstream stage is active (RUNNING, NOT_STARTED, etc.)
                 # If so, we can safely stop polling because the upstream stage
